@@ -27,6 +27,17 @@ Open Scope list_scope.
 
 Definition SVGNS : string := "http://www.w3.org/2000/svg".
 
+(* Which variant of the code is modelled: false = the pinned code (commit
+   12ec128), true = the repaired behaviour.  The correspondence check probes
+   the implementation on every run and instantiates the model accordingly. *)
+Record cfg := mkCfg {
+  f_style_skip : bool;   (* SaxDocument skips style declarations without ':' (trailing ';') *)
+  f_add_ns : bool;       (* Document(None) / add_path create svg / path in the SVG namespace *)
+  f_default_ns : bool    (* register_namespace('', SVGNS): the SVG namespace is written as the default one *)
+}.
+Definition pinned : cfg := mkCfg false false false.
+Definition repaired : cfg := mkCfg true true true.
+
 (* ---------- attribute dictionaries as association lists ---------- *)
 Definition dict : Type := list (string * string).
 
@@ -65,12 +76,28 @@ Definition tag_name (e : fel) : string :=
   | FE prefix _ local _ _ => if String.eqb prefix "" then local else (prefix ++ ":" ++ local)%string
   end.
 
-Fixpoint et_write (e : xel) : fel :=
+(* ElementTree collects the namespaces of the whole tree and declares them on
+   the root.  pinned (register_namespace('svg', SVGNS)): elements of the SVG
+   namespace are written svg:local, elements without namespace bare.
+   repaired (register_namespace('', SVGNS)): the SVG namespace is the default
+   namespace, its elements are written bare; elements WITHOUT a namespace are
+   written bare too and so fall into the default namespace whenever the tree
+   contains an element of the SVG namespace ([dflt]). *)
+Fixpoint has_svgns (e : xel) : bool :=
+  match e with
+  | XE ns _ _ kids => String.eqb ns SVGNS || existsb has_svgns kids
+  end.
+
+Fixpoint et_write_in (c : cfg) (dflt : bool) (e : xel) : fel :=
   match e with
   | XE ns local a kids =>
-      FE (if String.eqb ns SVGNS then "svg" else if String.eqb ns "" then "" else "ns0")
-         ns local a (map et_write kids)
+      let kids' := map (et_write_in c dflt) kids in
+      if String.eqb ns SVGNS then
+        FE (if f_default_ns c then "" else "svg") SVGNS local a kids'
+      else if String.eqb ns "" then FE "" (if dflt then SVGNS else "") local a kids'
+      else FE "ns0" ns local a kids'
   end.
+Definition et_write (c : cfg) (e : xel) : fel := et_write_in c (f_default_ns c && has_svgns e) e.
 
 Fixpoint et_parse (f : fel) : xel :=
   match f with
@@ -160,23 +187,67 @@ Definition doc_read (f : fel) : list string * list dict :=
 Definition sax_name (e : xel) : string :=
   if String.eqb (x_ns e) SVGNS then x_local e else "".
 
-(* values = copy of the parent's values, updated with the element's attributes
-   (the style splitting is left out: see the harness streams for `style`) *)
-Fixpoint sax_values (inherited : dict) (e : xel) : list dict :=
-  match e with
-  | XE ns local a kids =>
-      let values := update inherited a in
-      (if String.eqb (sax_name e) "path" then [values] else [])
-      ++ flat_map (sax_values values) kids
+(* str.split(sep) for a one-character separator *)
+Fixpoint split_on (c : ascii) (s : string) : list string :=
+  match s with
+  | EmptyString => [""]
+  | String a r =>
+      let l := split_on c r in
+      if Ascii.eqb a c then "" :: l
+      else match l with
+           | h :: t => String a h :: t
+           | [] => [String a ""]
+           end
   end.
 
-Definition sax_read (f : fel) : list string * list dict :=
-  let ds := sax_values [] (et_parse f) in
-  (map (fun a => match lookup "d" a with Some d => d | None => "" end) ds, ds).
+(* for equate in attrs["style"].split(";"): equal_item = equate.split(":");
+   values[equal_item[0]] = equal_item[1].   A declaration without ':' (the empty
+   string after a trailing ';') makes equal_item[1] raise IndexError (None);
+   repaired: such declarations are skipped.  The result lists the assignments
+   LAST FIRST, so that [update] lets the last assignment win. *)
+Fixpoint style_assign (c : cfg) (decls : list string) (acc : dict) : option dict :=
+  match decls with
+  | [] => Some acc
+  | e :: r =>
+      match split_on ":" e with
+      | k :: v :: _ => style_assign c r ((k, v) :: acc)
+      | _ => if f_style_skip c then style_assign c r acc else None
+      end
+  end.
+Definition style_entries (c : cfg) (a : dict) : option dict :=
+  match lookup "style" a with
+  | None => Some []
+  | Some st => style_assign c (split_on ";" st) []
+  end.
 
-Definition sax_root_values (f : fel) : dict :=
+(* values = copy of the parent's values, updated with the element's attributes,
+   then with the declarations of its style attribute.  An element whose style
+   raises is marked None: the constructor raises. *)
+Fixpoint sax_values (c : cfg) (inherited : dict) (e : xel) : list (option dict) :=
+  match e with
+  | XE ns local a kids =>
+      match style_entries c a with
+      | None => [None]
+      | Some st =>
+          let values := update (update inherited a) st in
+          (if String.eqb (sax_name e) "path" then [Some values] else [])
+          ++ flat_map (sax_values c values) kids
+      end
+  end.
+
+(* None: SaxDocument(file) raises *)
+Definition sax_read (c : cfg) (f : fel) : option (list string * list dict) :=
+  match all_some (sax_values c [] (et_parse f)) with
+  | Some ds => Some (map (fun a => match lookup "d" a with Some d => d | None => "" end) ds, ds)
+  | None => None
+  end.
+
+Definition sax_root_values (c : cfg) (f : fel) : dict :=
   match et_parse f with
-  | XE ns local a _ => if String.eqb (sax_name (XE ns local a [])) "svg" then update [] a else []
+  | XE ns local a _ =>
+      if String.eqb (sax_name (XE ns local a [])) "svg"
+      then match style_entries c a with Some st => update (update [] a) st | None => [] end
+      else []
   end.
 
 (* ---------- Document: histories of add_path / add_group ---------- *)
@@ -201,9 +272,11 @@ Fixpoint update_at (p : position) (f : xel -> xel) (e : xel) : xel :=
 Definition append_child (c : xel) (e : xel) : xel :=
   match e with XE ns l a kids => XE ns l a (kids ++ [c]) end.
 
-(* SubElement(group, 'path', attribs) with attribs['d'] = path_svg: NO namespace *)
-Definition new_path_element (d : string) (a : dict) : xel :=
-  XE "" "path" (update a [("d", d)]) [].
+(* pinned: SubElement(group, 'path', attribs) with attribs['d'] = path_svg: NO
+   namespace; repaired: '{http://www.w3.org/2000/svg}path' *)
+Definition created_ns (c : cfg) : string := if f_add_ns c then SVGNS else "".
+Definition new_path_element (c : cfg) (d : string) (a : dict) : xel :=
+  XE (created_ns c) "path" (update a [("d", d)]) [].
 (* SubElement(parent, '{http://www.w3.org/2000/svg}g', group_attribs) *)
 Definition new_group_element (a : dict) (kids : list xel) : xel := XE SVGNS "g" a kids.
 
@@ -239,18 +312,15 @@ Inductive op :=
 | OpAddPathNamed (d : string) (a : dict) (names : list string)
 | OpAddGroup (a : dict) (parent : position).
 
-Definition step (o : op) (root : xel) : xel :=
+Definition step (c : cfg) (o : op) (root : xel) : xel :=
   match o with
-  | OpAddPath d a p => update_at p (append_child (new_path_element d a)) root
-  | OpAddPathNamed d a names => add_named names (new_path_element d a) root
+  | OpAddPath d a p => update_at p (append_child (new_path_element c d a)) root
+  | OpAddPathNamed d a names => add_named names (new_path_element c d a) root
   | OpAddGroup a p => update_at p (append_child (new_group_element a [])) root
   end.
 
-Definition run (ops : list op) (root : xel) : xel := fold_left (fun r o => step o r) ops root.
+Definition run (c : cfg) (ops : list op) (root : xel) : xel :=
+  fold_left (fun r o => step c o r) ops root.
 
-(* Document(None): etree.ElementTree(Element('svg')) — no namespace either *)
-Definition empty_document : xel := XE "" "svg" [] [].
-
-(* the repaired add_path: the element is created in the SVG namespace *)
-Definition new_path_element_fixed (d : string) (a : dict) : xel :=
-  XE SVGNS "path" (update a [("d", d)]) [].
+(* Document(None): etree.ElementTree(Element('svg')) — pinned: no namespace either *)
+Definition empty_document (c : cfg) : xel := XE (created_ns c) "svg" [] [].
